@@ -356,8 +356,26 @@ def _check_sample(res, db, copies, rl, depth, desc, params=None, truth=False):
                        tuple(sorted(g.get_refseq(m) for m in a.missing))) for a in s.solution)),
          tuple(sorted(s.major_solution.cn_solution.solution.items()))) for s in sols)
     reported = [collections.Counter(a.major for a in s.solution) for s in sols]
+    mech = None
+    if planted_majors not in reported and sols and g.do_copy_number:
+        # every reported structure reads exactly like the planted one in all regions the structure model looks at
+        # (a partial deletion confined to other regions): depth cannot tell them apart, and the structure that lacks
+        # regions has less evidence to explain
+        from aldy.solutions import CNSolution as _CN
+
+        def seen_by_model(cn):
+            return {(gi, r): cn.region_cn[gi].get(r, 0) for gi in range(len(cn.region_cn)) for r in g.unique_regions}
+
+        try:
+            want_v = seen_by_model(_CN(g, 0, list(planted_cfg) + ([g.alleles[dele].cn_config] * max(0, 2 - len(planted_cfg))
+                                                                 if dele else [])))
+            if all(tuple(sorted(s.major_solution.cn_solution.solution.elements())) != planted_cfg
+                   and seen_by_model(s.major_solution.cn_solution) == want_v for s in sols):
+                mech = "depth-indistinguishable-partial-structure"
+        except Exception:
+            mech = None
     res.check("planted_majors_among_best", planted_majors in reported,
-              "the planted combination of major alleles is not among the best solutions",
+              "the planted combination of major alleles is not among the best solutions", mech=mech,
               reported=[_sim.solution_summary(s) for s in sols][:4], **desc)
     # the printed diplotype of a solution that has the planted majors names exactly the planted combination: every
     # copy once (fusion suffix removed), the whole-gene deletion for each missing haplotype
